@@ -282,6 +282,38 @@ func replacement(repl string, old interface{}) (interface{}, bool) {
 	case "large_index":
 		// fits an int: a library that sizes an array by a destination index allocates 800 GB
 		return "/other/arr/99999999999", true
+	case "stray_tilde":
+		return "/other/a~b/arr~/0~2/~", true
+	case "same_shape_other_value":
+		switch v := old.(type) {
+		case string:
+			if v == "" {
+				return "A", true
+			}
+
+			// one character in the middle exchanged for its neighbour in the alphabet
+			b := []byte(v)
+			i := len(b) / 2
+
+			switch {
+			case b[i] >= 'a' && b[i] < 'z', b[i] >= 'A' && b[i] < 'Z', b[i] >= '0' && b[i] < '9':
+				b[i]++
+			case b[i] == 'z', b[i] == 'Z', b[i] == '9':
+				b[i]--
+			default:
+				b[i] = 'A'
+			}
+
+			return string(b), true
+		case float64:
+			return v + 1, true
+		case int:
+			return v + 1, true
+		case bool:
+			return !v, true
+		}
+
+		return old, true
 	case "pointer_into_own_source":
 		return "/other/arr/0/../../other", true
 	case "non_string_key_value":
@@ -750,7 +782,17 @@ func robustWorker(args []string) {
 
 		done := make(chan string, 1)
 
-		go func() { done <- env.call(p.Ep, template, input) }()
+		// every call is made twice: what an input leaves behind in the library (a cache entry, a pooled buffer) meets
+		// the same input again
+		go func() {
+			oc := env.call(p.Ep, template, input)
+
+			if again := env.call(p.Ep, template, env.concreteInput(&p)); strings.HasPrefix(again, "panic") && !strings.HasPrefix(oc, "panic") {
+				oc = "panic on the second call with the same input: " + strings.TrimPrefix(again, "panic: ")
+			}
+
+			done <- oc
+		}()
 
 		select {
 		case oc := <-done:
